@@ -25,6 +25,10 @@
 (*   "Misbehave" the client detected that the peer at (i,j) served an       *)
 (*               invalid block (k=5), filter header (k=3) or filter         *)
 (*               checkpoint (k=4) and reports it (BanPeer); res "ok"|"err"  *)
+(*   "BanBegin"  the same report, taken in two steps: the BanPeer call has  *)
+(*   "BanCommit" reached the ban store's write, which is held ("held"); the *)
+(*               write commits and BanPeer runs to its end ("ok" | "err").  *)
+(*               Judged like "Misbehave" once the write has committed.      *)
 (*   "Unban"     the ban of IP i is lifted in the store                     *)
 (*   "Drop"      the remote side closes the connection of slot p            *)
 (* The driver lets every asynchronous consequence of an action finish       *)
@@ -46,7 +50,7 @@ Viol(a, o, act, a2, o2) ==
    THEN {"NoServicePeerBanned"} ELSE {})
   \cup
   \* provably invalid block / filter header / filter checkpoint => banned and disconnected
-  (IF act.op = "Misbehave"
+  (IF act.op \in {"Misbehave", "BanCommit"}
       /\ (~Banned(o2, act.i)
           \/ \E p \in Slots(o) : o.ad[p] = <<act.i, act.j>> /\ o.kept[p] = 1
                                  /\ o2.ad[p] = o.ad[p] /\ (o2.kept[p] = 1 \/ o2.conn[p] = 1))
